@@ -113,9 +113,11 @@ APPEND = {
     ("C01_partial_dpor_loop_mono", "dpor_loop_mono", "marks are never taken back within the loop"),
     ("C01_partial_race_reversal_explored", "race_reversal_explored", "for the exploration of the concrete model without a bound: a race detected at any scheduling point of any iteration, with the racing thread runnable at the backtrack point, is followed by an iteration with the same decisions up to that point that schedules the racing thread there"),
     ("C01_partial_run_race_reversal_explored", "run_race_reversal_explored", "the same phrased on a state reached inside iteration k"),
+    ("C01_refuted_D24_missing", "D24_missing", "D24 (listed finding, computed): yield_now is invisible to DPOR; main `fetch_add; store`, t1 `yield_now; load`: R lets t1 read the fetch_add's value, the unbounded exploration of L finishes without ever producing it"),
     ("C01_observed_yield_race_reversal_missed", "yield_race_reversal_missed", "observed (computed): when the racing thread is in state Yield at the backtrack point nothing is registered and the reversed order is never run: yield_now means `not before another thread has run` (loom's documented pruning; outside C01's primitives)"),
  ])],
- "C15": [("LV.PathPreempt", "Preemptions counted independently of the stored counter (PathPreempt.v)", [
+ "C15": [("LV.PathPreempt LV.Witness", "Preemptions counted independently of the stored counter (PathPreempt.v)", [
+    ("C15_refuted_D24_bounded_not_subset", "D24_bounded_not_subset", "D24 (listed finding, computed): for that program the run with preemption_bound = 2 explores an outcome that the unbounded run does not: clause `every result found is also found by the unbounded run` fails (the bounded run is right: the outcome is legal; the unbounded run is incomplete)"),
     ("C15_switches_le_preemptions", "switches_le_preemptions", "INDEPENDENT READING: the number of context switches away from a still-runnable thread, counted from the recorded schedule entries alone, never exceeds the stored preemption counter"),
     ("C15_switches_le_bound", "switches_le_bound", "hence never exceeds the bound"),
     ("C15_branch_thread_keeps_link", "branch_thread_pre_inv", "branch_thread keeps the linking invariant for every seed in which a switch away from the running thread happens only when that thread is Disabled or Yield"),
